@@ -400,6 +400,7 @@ def _monitor(res, case, ctx, rqs, pp, rpp, impl, rows):
         if len(members) > 1:
             def ident(m):
                 d = {k: m[k] for k in ('src', 'dst', 'type', 'mode', 'spacing', 'include', 'strict', 'bidir')}
+                d['tx_power'] = m.get('tx_power')
                 d['power'] = m['power'] if m['power'] is not None else float(dbm2watt(eq['SI']['default'].power_dbm))
                 return d
             k0 = ident(members[0])
@@ -458,8 +459,22 @@ def _monitor(res, case, ctx, rqs, pp, rpp, impl, rows):
             res.fail(f'transponder: {what}: reported {tsps}, request has {rq.tsp} / {rq.tsp_mode}')
         if rq.tsp != members[0]['type'] or (members[0]['mode'] is not None and rq.tsp_mode != members[0]['mode']):
             res.fail(f'transponder: {what}: type/mode {rq.tsp}/{rq.tsp_mode} differ from the requested ones')
-        # metrics = receiver values of THAT direction rounded to two decimals
-        power = rq.power
+        # the reference power reported is the request's OWN (output-power of the document, else the library default), and the
+        # path was propagated with the request's OWN transceiver power (tx_power of the document, else the library default)
+        si_def = eq['SI']['default']
+        own_power = members[0]['power'] if members[0]['power'] is not None else float(dbm2watt(si_def.power_dbm))
+        own_tx = members[0].get('tx_power')
+        if own_tx is None:
+            own_tx = float(dbm2watt(si_def.tx_power_dbm)) if si_def.tx_power_dbm is not None else own_power
+        if abs(rq.power - own_power) > 1e-15:
+            res.fail(f'power: {what} carries reference power {rq.power} W, its own request asks for {own_power} W')
+        for path_, name in ((p, 'forward'), (rp if rq.bidir else [], 'reverse')):
+            if path_ and getattr(path_[-1], 'tx_power', None) is not None and \
+                    any(abs(float(x) - own_tx) > 1e-12 * max(1.0, own_tx) for x in np.atleast_1d(path_[-1].tx_power)):
+                res.fail(f'power: {what} {name} direction was propagated with transceiver power '
+                         f'{float(np.atleast_1d(path_[-1].tx_power)[0])} W, its own request states {own_tx} W')
+        res.stats['responses_with_own_tx_power'] += int(members[0].get('tx_power') is not None)
+        power = own_power
         for key, path_, name in (('path-metric', p, 'forward'), ('z-a-path-metric', rp, 'reverse')):
             if key == 'z-a-path-metric' and not members[0]['bidir'] and not rq.bidir:
                 if key in props:
@@ -521,6 +536,10 @@ def _monitor(res, case, ctx, rqs, pp, rpp, impl, rows):
                 nb = math.ceil(round(gb, 2) / round(gr, 2))
                 if row['nb of tsp pairs'] != str(nb):
                     res.fail(f'csv: {what}: nb of tsp pairs {row["nb of tsp pairs"]}, bandwidth {gb} / bit rate {gr} needs {nb}')
+                pin = round(10 * math.log10(own_power * 1e3), 2)
+                if num('input power (dBm)') is None or abs(num('input power (dBm)') - pin) > 0.011:
+                    res.fail(f'csv: {what}: input power column {row["input power (dBm)"]} dBm, the request\'s own reference power is '
+                             f'{pin} dBm')
                 if num('path_bandwidth') is None or abs(num('path_bandwidth') - round(gb, 2)) > 1e-9:
                     res.fail(f'csv: {what}: path_bandwidth column {row["path_bandwidth"]} for {gb} Gbit/s')
                 lab_txt = f'{[n for n in rq.N]}, {[m for m in rq.M]}'
